@@ -137,6 +137,10 @@ type CR3Parts struct {
 	// randomly chosen nested box (64-bit headers preferred) starts Align-1 bytes before a 4 KiB
 	// boundary of the stream, i.e. where a 4 KiB buffered reader has only that much left.
 	Align int
+	// OddSiblings: the children of the Canon metadata box that are not metadata take unusual but
+	// harmless shapes (CNCV of any length, CTBO empty / 3 bytes / hundreds of entries, an empty or
+	// 4-byte CMT3) and all children come in a random order.
+	OddSiblings bool
 }
 
 // CR3 is a generated file and its ground truth.
@@ -186,6 +190,9 @@ func BuildCR3(r *core.Rng, p CR3Parts, noise int, large64 bool) CR3 {
 	}
 	var canonKids []*Box
 	cncv := &Box{Type: "CNCV", Payload: []byte("CanonCR3_001/00.09.00/00.00.00"), Tag: "CNCV"}
+	if p.OddSiblings {
+		cncv.Payload = r.Bytes(r.Pick(0, 1, 10, 18, 29, 30, 31, 60))
+	}
 	canonKids = append(canonKids, cncv)
 	if r.Chance(3, 4) {
 		cctp := &Box{Type: "CCTP", Payload: r.Bytes(r.Range(12, 80)), Tag: "CCTP"}
@@ -217,6 +224,26 @@ func BuildCR3(r *core.Rng, p CR3Parts, noise int, large64 bool) CR3 {
 	}
 	if r.Chance(1, 2) {
 		canonKids = append(canonKids, &Box{Type: "THMB", Payload: r.Bytes(r.Range(16, 3000)), Tag: "THMB"})
+	}
+	if p.OddSiblings {
+		switch r.Intn(4) {
+		case 0:
+			canonKids = append(canonKids, &Box{Type: "CTBO", Payload: r.Bytes(r.Pick(0, 1, 3)), Tag: "CTBO-short"})
+		case 1:
+			n := r.Range(205, 400)
+			pl := make([]byte, 4+20*n)
+			binary.BigEndian.PutUint32(pl, uint32(n))
+			canonKids = append(canonKids, &Box{Type: "CTBO", Payload: pl, Tag: "CTBO-long"})
+		}
+		if p.CMT3 == nil && r.Bool() {
+			canonKids = append(canonKids, &Box{Type: "CMT3", Payload: r.Bytes(r.Pick(0, 0, 4, 7)), Tag: "CMT3-empty"})
+		}
+		pm := r.Perm(len(canonKids))
+		sh := make([]*Box, len(canonKids))
+		for i, j := range pm {
+			sh[i] = canonKids[j]
+		}
+		canonKids = sh
 	}
 	canon := &Box{Type: "uuid", UUID: UUIDCanonMeta, Kids: sprinkle(canonKids), Large: lg(), Tag: "uuid-canon"}
 	named["uuid-canon"] = canon
